@@ -94,6 +94,12 @@ def base_files(ctx):
         h.flags = 2
         h.optelems = [(1, b"xyz"), (7, b"")]
         bases.append(("ref-optelems:ab:fh%d" % htype, h.build() + body))
+    # value-dependent shape: stored header digests that contain 0x00 at byte 0 / 1 / 2 (a str*-style comparison ends there)
+    for fh, pos in (((1, 0), (3, 1)) if quick else ((0, 0), (1, 0), (2, 0), (3, 0), (1, 1), (2, 2), (3, 1))):
+        zf = universe.zero_hdr_file(Cfg(0, b"", 0, 3, fh), seed, pos=pos)
+        bases.append(("ref-zero-hdigest@%d:fh%d" % (pos, fh), zf))
+        if pos == 0:
+            bases.append(("ref-zero-hdigest@0-detached:fh%d" % fh, universe.zero_hdr_file(Cfg(0, b"", 0, 3, fh), seed, pos=0, detached=True)))
     # dedupe identical byte strings (library and reference writers agree on uncompressed files)
     seen = {}
     for name, b in bases:
